@@ -199,6 +199,12 @@ class ProgGen:
                 self.index_names.add(idx)
             sub2 = dict(sub, loops=ctx['loops'] + ['for'], types=types2)
             body = self.block(sub2, depth - 1)
+            if arr[0] == 'var' and ctx['types'].get(arr[1]) == 'a' and r.random() < 0.25:
+                # the body changes the very array that is being walked (the loop runs over the length it had at the start; an element that is gone
+                # by the time it is fetched reads as null)
+                change = r.choice([call('arrayPop', arr), call('arrayShift', arr), call('arrayDelete', arr, num(0)), call('arrayPush', arr, num(9)),
+                                   call('arraySet', arr, num(0), sq('set'))])
+                body.insert(r.randint(0, len(body)), ('expr', change))
             ctx['types'][val] = '?'
             return [('for', val, idx, arr, body)]
         if not ctx['infunc'] and len(self.funcs) < self.max_functions and (ctx['level'] == 0 or self.allow_func_in_block):
